@@ -130,7 +130,7 @@ class World:
         # an object that is still in its slot keeps its basis (re-basing is only ever done on copies); the molar meaning is
         # compared by the projection, which is basis-free
         rebased = [s for s, (oid, b) in before.items() if self.rx.get(s) is not None and id(self.rx[s]) == oid and self.rx[s]._basis != b]
-        obs = dict(exc=exc, same=False, reduced_m=[], held_agree=self._held_agree(), too_big=False, rebased=bool(rebased))
+        obs = dict(exc=exc, same=False, reduced_m=[], held_agree=self._held_agree(), too_big=False, rebased=bool(rebased), tagged_ok=True)
         obs.update(extra)
         return obs
 
@@ -288,6 +288,33 @@ class World:
             finally:
                 tmo.reaction.CHECK_FEASIBILITY = True
             return dict(reduced_m=[fr(x) for x in f.imol.data.to_array()], same=cp is self.set)
+        elif op == 'tagged_probe':
+            # the same reaction with every chemical tagged with the gas phase (2-d stoichiometry): copying, re-basing, scaling and
+            # combining must leave the operand as it was (stoichiometry array, basis, conversion) and return new objects
+            rec = self._rec(R[a['x']])
+            def build():
+                terms = lambda sign: ' + '.join('%r %s,g' % (abs(n[0] / n[1]), IDS[i]) for i, n in enumerate(rec['nu']) if n[0] * sign > 0)
+                return tmo.Reaction('%s -> %s' % (terms(-1), terms(1)), reactant=IDS[rec['r'] - 1], X=rec['X'][0] / rec['X'][1], chemicals=self.th.chemicals)
+            T = build()
+            snap = (T._stoichiometry.to_array().copy(), T._basis, float(T.X))
+            how = a['how']
+            if how == 'copy_basis':
+                c = T.copy(basis='wt')
+            elif how == 'copy_then_set':
+                c = T.copy()
+                c.basis = 'wt'
+            elif how == 'add_other_basis':
+                U = build()
+                U.basis = 'wt'
+                c = T + U
+            elif how == 'imul_copy':
+                c = T.copy()
+                c *= 2.
+            else:
+                c = -T
+            same = c is T
+            ok = (not same) and np.allclose(T._stoichiometry.to_array(), snap[0], rtol=1e-12, atol=1e-12) and T._basis == snap[1] and float(T.X) == snap[2]
+            return dict(tagged_ok=bool(ok))
         elif op == 'to_mol':
             res = R[a['x']].copy(basis='mol')
             same = res is R[a['x']]
@@ -366,6 +393,8 @@ def random_op(rng, st, ops, slots=SLOTS):
         return op, dict()
     if op == 'set_copy':
         return op, dict(basis=rng.choice([NONE, 'wt', 'wt', 'mol']))
+    if op == 'tagged_probe':
+        return op, dict(x=x, how=rng.choice(['copy_basis', 'copy_then_set', 'add_other_basis', 'imul_copy', 'neg']))
     if op in ('to_wt', 'to_mol'):
         return op, dict(d=rng.choice(slots), x=x)
     if op in ('item_set_X', 'set_set_X'):
